@@ -147,7 +147,7 @@ def make_matrix_doc(rng):
 class C13(Machine):
     name = "c13"
     property_id = "C13"
-    runs = {"quick": 60000, "thorough": 2000000}
+    runs = {"quick": 60000, "thorough": 1500000}
     batch = 300
     rule = ("sessions of 2-8 read calls over one or two seeded documents (Newick, NEXUS with TRANSLATE / several TREES blocks / "
             "comments / weights, NeXML) into one shared namespace, each call through a seeded route, tree iterators advanced one tree "
@@ -183,7 +183,7 @@ class C13(Machine):
             if rng.random() < 0.4:
                 docs_.append(make_tree_doc(rng, like=d))      # same labels, other trees, other TRANSLATE numbering
             steps = [{"op": "call", "route": "treelist_get", "short": 0, "doc": 0}]
-            for _ in range(rng.randint(1, 7)):
+            for _ in range(rng.randint(1, 16 if tier == "thorough" else 7)):
                 r = rng.random()
                 if r < 0.3:
                     steps.append({"op": "advance", "k": rng.randrange(100), "n": rng.randint(1, 3)})
